@@ -43,7 +43,9 @@ CLAIMED = {
              tech="machine-checked proof in Coq (matrix identity + refutation witness) + AD-vs-finite-difference comparison with discriminators"),
  "C17": dict(text="Combinatorial identity over all sign vectors proved for every N; estimators averaged over all probes equal the exact blocks for any Jacobian tensor and any sizes; validator reflection; correspondence with rademacher patched to enumerate all probes.",
              note=TB + "jvp/vjp modelled as the exact linear maps of the Jacobian (JAX AD trusted, checked by correspondence).",
-             tech="machine-checked proof in Coq (induction over sign vectors) + model-vs-implementation correspondence under full probe enumeration"),
+             tech="machine-checked proof in Coq (induction over sign vectors) + model-vs-implementation correspondence under full probe enumeration"), "C20": dict(text="PARTIAL (exception mechanics are runtime behaviour): every validator (Taylor-coefficient containers, base/output scales, exactness flags, lift_by range, isinstance gates, loss std containers, posterior type, error/reference shapes, ensemble count, suitability warnings) is transcribed as a decision function on an abstract value universe and proved to reflect an independently written declarative well-formedness spec (iff for all inputs where possible, bounded-exhaustive where stated, refuted with witnesses where the code accepts malformed input); the full single-field corruption matrix (4496 cases, exhaustive) is run against the real API and the model verdicts.",
+             note=TB + "Which exception class/message and 'never produces numbers' are observed by the harness; Coq decides the accept/reject logic only. Three accepted-malformed-input defects are known findings F15-F17.",
+             tech="machine-checked proof in Coq (boolean reflection of validators against a declarative spec) + exhaustive corruption matrix against the real API"),
 }
 
 REASON_PENDING = "check under construction in this round: not yet claimed (see DESIGN.md); will be claimed once its Coq theorems and correspondence exist"
